@@ -415,11 +415,21 @@ _public_ int m_ctx_deregister(void) {
     M_CTX_ASSERT();
     M_PARAM_ASSERT(c->state == M_CTX_IDLE);
 
-    int ret = pthread_setspecific(key, NULL);
-    if (ret == 0) {
+    int ret = 0;
+    M_MEM_LOCK(c, {
+        /*
+         * Deregister the modules while the context is still the one of this thread:
+         * mod_deregister() refuses modules that do not belong to the caller's context.
+         */
         m_iterate(c->modules, ctx_destroy_mods, NULL);
-        m_mem_unref(c);
-    }
+        /* A stop callback may already have deregistered the context */
+        if (pthread_getspecific(key) == c) {
+            ret = pthread_setspecific(key, NULL);
+            if (ret == 0) {
+                m_mem_unref(c);
+            }
+        }
+    });
     return ret;
 }
 
